@@ -253,6 +253,9 @@ fn check_lambda(ctx: &Ctx, name: &str, lambda: f64, n1_log2: u32, n: usize, deta
         "C16 lambda={} ({:.6e}) P(loop)={:.6} P(accept|loop)={:.6} max|CDF-target|={:.3e} at t={:.4} tol={:.3e} execs={}",
         name, lambda, r.p_loop, r.p_accept, r.max_err, r.worst_t, r.tol, r.executions
     );
+    if name == "ln(2/1)" || name == "10" {
+        ctx.sample(json!({"lambda": name, "first_try_grid_points": 1u64 << n1_log2, "loop_grid": format!("{0}x{0}", n), "P_loop": r.p_loop, "P_accept_per_round": r.p_accept, "max_cdf_error": r.max_err, "tolerance": r.tol}));
+    }
     details.push(json!({"lambda": name, "value": lambda, "p_loop": r.p_loop, "p_accept_per_round": r.p_accept, "max_cdf_error": r.max_err,
         "at_t": r.worst_t, "tolerance": r.tol, "executions": r.executions, "extreme_word_scripts": nx}));
     let case = json!({"kind": "lambda", "name": name, "lambda": lambda, "n1_log2": n1_log2, "n": n});
